@@ -561,20 +561,16 @@ func runCase(st *stats, u *sergen.Universe, shapeIdx int, s *sergen.Shape, v *se
 func runSerix(c *vf.Ctx, a *agg, workers int) {
 	nUni := c.Pick(800, 16000)
 	base := c.Rand("serix-universes").Int63()
-	// static universe (in the parent: its types are fixed, nothing can grow without bound)
-	{
-		st := newStats()
-		u := sergen.NewStatic()
-		for si, s := range u.Shapes {
-			exercise(st, u, si, s, c.Pick(200, 2000))
+	// every universe runs in a child process with an address-space limit, so that a decoder that asks
+	// for gigabytes on the bytes Encode just produced kills a child and not the check
+	vf.Parallel(workers+1, workers+1, func(w int) {
+		var res vf.ChildResult
+		if w == workers {
+			res = c.RunChild(vf.ChildOpts{Name: "serix-static", MemKB: 3 << 20, Timeout: time.Duration(c.Pick(4, 20)) * time.Minute})
+		} else {
+			res = c.RunChild(vf.ChildOpts{Name: "serix", Args: []string{fmt.Sprint(base), fmt.Sprint(w), fmt.Sprint(workers), fmt.Sprint(nUni)},
+				MemKB: 3 << 20, Timeout: time.Duration(c.Pick(4, 20)) * time.Minute})
 		}
-		a.merge(st)
-	}
-	// dynamic universes: in child processes with an address-space limit, so that a decoder that
-	// asks for gigabytes on the bytes Encode just produced kills a child and not the check
-	vf.Parallel(workers, workers, func(w int) {
-		res := c.RunChild(vf.ChildOpts{Name: "serix", Args: []string{fmt.Sprint(base), fmt.Sprint(w), fmt.Sprint(workers), fmt.Sprint(nUni)},
-			MemKB: 3 << 20, Timeout: time.Duration(c.Pick(4, 20)) * time.Minute})
 		switch {
 		case res.TimedOut:
 			c.Inconclusive(fmt.Sprintf("serix child %d hit the watchdog at %s", w, res.LastMark))
@@ -590,7 +586,7 @@ func runSerix(c *vf.Ctx, a *agg, workers int) {
 			var call string
 			if n, _ := fmt.Sscanf(iso.LastMark, "in-call %s", &call); n == 1 && iso.ExitCode != 0 && !iso.TimedOut {
 				c.Violation("bin:"+call+"-killed-process", fmt.Sprintf("the process died (exit %d) while %s was running on a value / on bytes of the round trip of universe %d shape %d", iso.ExitCode, call, useed, si),
-					replayRec{Part: "serix", USeed: useed, ShapeIdx: si, ValIdx: -1, Detail: "process death inside " + call})
+					replayRec{Part: "serix", Static: useed == -1, USeed: useed, ShapeIdx: si, ValIdx: -1, Detail: "process death inside " + call})
 			} else {
 				c.Inconclusive(fmt.Sprintf("serix child %d died (exit %d) at %s; the isolating re-run ended with exit %d at %q", w, res.ExitCode, res.LastMark, iso.ExitCode, iso.LastMark))
 			}
@@ -605,11 +601,32 @@ func serixIsolateChild(c *vf.Ctx) {
 	fmt.Sscan(c.ChildArgs[0], &useed)
 	fmt.Sscan(c.ChildArgs[1], &si)
 	callMark = func(name string) { c.Mark(name) }
-	u := sergen.NewDynamic(useed)
+	var u *sergen.Universe
+	if useed == -1 {
+		u = sergen.NewStatic()
+	} else {
+		u = sergen.NewDynamic(useed)
+	}
 	st := newStats()
 	c.Mark("harness")
-	exercise(st, u, si, u.Shapes[si], 40)
+	nv := 40
+	if u.Static {
+		nv = c.Pick(200, 2000)
+	}
+	exercise(st, u, si, u.Shapes[si], nv)
 	(&agg{c: c}).merge(st)
+}
+
+// child "serix-static": the hand-declared universe.
+func serixStaticChild(c *vf.Ctx) {
+	a := &agg{c: c}
+	u := sergen.NewStatic()
+	for si, s := range u.Shapes {
+		st := newStats()
+		c.Mark(fmt.Sprintf("universe %d shape %d", u.Seed, si))
+		exercise(st, u, si, s, c.Pick(200, 2000))
+		a.merge(st)
+	}
 }
 
 // child: universes start, start+stride, … < n
